@@ -30,6 +30,15 @@ func (e *Engine) lemmaObligations(prop string) (map[*Obligation]*FuncCtx, []*Obl
 			continue
 		}
 		c := newFuncCtx(e, lm.Mode, "lemma")
+		// a lemma that is also used as an axiom (`use`) must not assume itself, nor any lemma stated after it
+		c.inLemma = true
+		c.lemmaAxLimit = len(e.cs.Axioms)
+		for i, ax := range e.cs.Axioms {
+			if ax.Proved && ax.Text == lm.Text {
+				c.lemmaAxLimit = i
+				break
+			}
+		}
 		var pkg *types.Package
 		if sp := e.spkgs[lm.Pkg]; sp != nil {
 			pkg = sp.Pkg
